@@ -9,9 +9,10 @@
 EXTENDS Naturals, Sequences, TLC, Json, IOUtils
 Rec == ndJsonDeserialize(IOEnv.VERIF_TRACE)
 VARIABLE i
-Init == i \in DOMAIN Rec
-Next == UNCHANGED i
+\* (records are judged in successor states, i.e. by TLC's worker threads, whose stack size is configurable)
+Init == i = 0
+Next == i = 0 /\ i' \in DOMAIN Rec
 Spec == Init /\ [][Next]_i
 Functional == (i > 1 /\ Rec[i].key = Rec[i - 1].key) => Rec[i].sha = Rec[i - 1].sha
-Judge == Functional \/ PrintT(<<"BAD", ToJson(i)>>)
+Judge == i = 0 \/ Functional \/ PrintT(<<"BAD", ToJson(i)>>)
 =============================================================================
